@@ -116,6 +116,20 @@ class Check:
         self.last_stderr = p.stderr.decode(errors="replace")
         return p.returncode, (None if stdout_path else p.stdout.decode(errors="replace"))
 
+    def vh_abortable(self, args, fingerprint, what, **kw):
+        """Run the harness; if the process is killed by a signal (abort after a failed allocation, stack overflow, segfault)
+        while it drives the code under test in-process, that is an outcome of the property, not a tool error: it is
+        reported under `fingerprint` and None is returned.  A harness panic (exit 101) or usage error stays a tool error."""
+        rc, out = self.vh(args, check=False, **kw)
+        if rc == 0:
+            return out
+        if rc < 0 or rc in (134, 139):
+            tail = (self.last_stderr or "")[-300:].strip()
+            self.report(fingerprint, "%s: the process was killed (exit %d): %s" % (what, rc, tail), {"args": [str(a) for a in args], "exit": rc, "stderr": tail})
+            return None
+        sys.stderr.write((self.last_stderr or "")[-4000:])
+        raise ToolError("harness failed (%d): vh %s" % (rc, " ".join(map(str, args))))
+
     # ------------------------------------------------------------------ TLC
     def tlc(self, module, cfg=None, workers=None, heap="8g", timeout=1800, env=None, extra=(),
             name=None, coverage=False, deque=False):
